@@ -18,7 +18,7 @@ import aggrun as R
 TOL = {"f64": 1e-7, "f32": 3e-3}
 
 
-def gen_fullrank(rng, mmax=4, nmax=6, structured=False):
+def gen_fullrank(rng, mmax=4, nmax=6, structured=False, e=None):
     for _ in range(500):
         m = rng.randint(1, mmax)
         n = rng.randint(m, nmax)
@@ -36,7 +36,8 @@ def gen_fullrank(rng, mmax=4, nmax=6, structured=False):
         sv = np.linalg.svd(Jf, compute_uv=False)
         if len(sv) < m or sv[-1] <= 0 or sv[0] / sv[-1] > 1e3:
             continue
-        e = rng.choice([0, 0, -12, 9, -30, 25])
+        if e is None:
+            e = rng.choice([0, 0, -12, 9, -30, 25])
         return [[F(x) * F(2) ** e for x in r] for r in J], e
     raise RuntimeError("no full-rank matrix")
 
@@ -174,7 +175,9 @@ def run(chk):
     cases = []
     for i in range(90 if q else 1500):
         name = ["IMTLG", "ConFIG", "AlignedMTL"][i % 3]
-        J, e = gen_fullrank(rng, structured=(name == "IMTLG" and rng.random() < 0.4))
+        # every fourth case (of each aggregator in turn) sits at the small scale 2^-30 AND is followed by its
+        # sibling: entries of J J^T around 1e-17, where anything compared with an absolute tolerance is "equal"
+        J, e = gen_fullrank(rng, structured=(name == "IMTLG" and rng.random() < 0.4), e=(-30 if i % 4 == 0 else None))
         p = {}
         if name in ("ConFIG", "AlignedMTL"):
             p = {"pref": A.gen_pref(rng, len(J), positive=True)}
